@@ -307,6 +307,10 @@ def run_history(ops, detail=None):
     fresh = STATE['fresh']
     ok = True
     i = 0
+    if CFG.get('warm'):
+        # the history starts from an instance that has already served the initial version
+        t.render()
+        served_v, seen_m, cooks = init_v, init_m, 1
     for (op, a, m) in ops:
         i += 1
         if op == 0 or op == 1:
